@@ -54,6 +54,17 @@ def rule_m1(chk: Check, ix: Index):
                 any(s.startswith("return TokenInfo(Token.MACRO_PARAM, string, start, end, line)") for s in src),
                 "M1-must-append", "consume_macro_params:span", f.where,
                 "the raw argument token must span from the first captured token's start to the last one's end")
+    # the raw fetch is transparent: it returns the next token of the stream, whatever it is (a filter here removes tokens —
+    # comments, blanks — from every raw capture)
+    from ..pyflow import stmt_paths
+    nr = ix.get("Tokenizer._next_raw")
+    chk.count("M1-must-append")
+    rets = [n for n in own_nodes(nr.node) if isinstance(n, ast.Return)]
+    loops = [n for n in own_nodes(nr.node) if isinstance(n, (ast.While, ast.For))]
+    conds = [n for n in own_nodes(nr.node) if isinstance(n, ast.If)]
+    chk.require(len(rets) == 1 and norm_stmt(rets[0].value) == "next(self._tokengen)" and not loops and not conds, "M1-must-append",
+                "Tokenizer._next_raw:transparent", nr.where,
+                "the raw fetch must return `next(self._tokengen)` unconditionally; skipping tokens here drops their text from macro arguments")
     # with-macro: only structural tokens are skipped
     g = ix.get("Tokenizer.consume_with_macro_params")
     for n in own_nodes(g.node):
